@@ -1,4 +1,4 @@
-use std::hash::{BuildHasher, Hasher};
+use std::hash::BuildHasher;
 use std::sync::Arc;
 
 use foldhash::quality::FixedState;
@@ -43,13 +43,12 @@ impl MergedDictionary {
             return 1;
         }
 
-        let mut hasher = self.hasher_builder.build_hasher();
-
+        // Hash every word on its own and add the hashes up: the result neither depends on the
+        // iteration order of the underlying hash map nor confuses {"ab", "c"} with {"a", "bc"}.
         dictionary
             .words_iter()
-            .for_each(|w| w.iter().for_each(|c| hasher.write_u32(*c as u32)));
-
-        hasher.finish()
+            .map(|w| self.hasher_builder.hash_one(w))
+            .fold(0u64, |acc, h| acc.wrapping_add(h))
     }
 }
 
